@@ -125,7 +125,7 @@ WvOK(kind, ffmt, bb, wv) ==
   /\ (kind = "rect" => \A i \in 1..bb : DEq(Dec(FmtOf(ffmt), wv[i]), DOne))
 AcceptResetWindower ==
   LET c == Ev.cfg IN
-  /\ c.kind \in {"hann", "rect"} /\ c.fmt \in {"f64", "f32", "i16"} /\ c.ch \in 1..2
+  /\ c.kind \in {"hann", "rect"} /\ c.fmt \in {"f64", "f32", "i16", "u8", "u16"} /\ c.ch \in 1..2
   /\ c.b >= 2 /\ c.h >= 1 /\ c.L = Len(c.frames)                        \* domain of the property
   /\ Ev.r.k = "unit" /\ Ev.o.ok
   /\ c.ffmt = FFmt(c.fmt) /\ WvOK(c.kind, c.ffmt, c.b, Ev.o.wv)
